@@ -509,7 +509,9 @@ let run_eval (args : sx list) : sx =
             L [A "wf"; sx_bool (wf_json d && wf_json c)];
             sx_result (fun ms -> L (List.map sx_jmatch ms)) afi;
             sx_result (fun vs -> L (List.map sx_json vs)) afa;
-            L [A "std"; sx_bool (std_query q)]; L [A "ext"; sx_bool (ext_query q)]]
+            L [A "std"; sx_bool (std_query q)]; L [A "ext"; sx_bool (ext_query q)];
+            L [A "normpaths"; L (List.map (fun (l, _) -> let np = normpath l in L [sx_ustr np; sx_bool (valid_normpath np)])
+                                   (query_nodes re_full_oracle re_search_oracle e.e_keys q d c))]]
        with Unsupported_case w -> L [A "unsupported"; A w])
   | _ -> failwith "eval: bad args"
 
@@ -529,6 +531,66 @@ let run_compare (args : sx list) : sx =
       L [A "ok"; L (List.map sx_bool results); sx_bool (rfc_compare (sv l) op (sv r))]
   | _ -> failwith "compare: bad args"
 
+(* ---------- projection ----------------------------------------------------- *)
+(* (project <relative|root|flat> <match query> (<relative query> ...) <doc>) *)
+let run_project (args : sx list) : sx =
+  match args with
+  | [A style; mq; L rqs; doc] ->
+      let st = (match style with "relative" -> ProjRelative | "root" -> ProjRoot | "flat" -> ProjFlat | _ -> failwith "style") in
+      let mq = query_of_sx mq in
+      let rqs = List.map query_of_sx rqs in
+      let d = json_of_sx doc in
+      let e = default_env in
+      (try
+         let model =
+           match compound_finditer e re_full_oracle re_search_oracle mq d (JObj []) with
+           | Err x -> L [A "err"; A (exn_name x)]
+           | Ok ms -> sx_result (fun js -> L (List.map sx_json js)) (select e re_full_oracle re_search_oracle st rqs ms) in
+         let mnodes = query_nodes re_full_oracle re_search_oracle e.e_keys mq d (JObj []) in
+         let ok = ref (ext_query mq && List.for_all ext_query rqs) in
+         let spec =
+           List.concat (List.map (fun (ml, mv) ->
+             match mv with
+             | JArr _ | JObj _ ->
+                 let sel_nodes = List.concat (List.map (fun rq -> query_nodes re_full_oracle re_search_oracle e.e_keys rq mv (JObj [])) rqs) in
+                 let locs = List.map fst sel_nodes in
+                 if not (selections_ok locs) then ok := false;
+                 let r = (match st with
+                          | ProjFlat -> project_flat (List.map snd sel_nodes)
+                          | ProjRelative -> project_tree mv locs
+                          | ProjRoot -> project_root d ml locs) in
+                 (match r with Some j -> [j] | None -> [])
+             | _ -> []) mnodes) in
+         L [A "ok"; model; L (List.map sx_json spec); L [A "domain"; sx_bool !ok]; L [A "wf"; sx_bool (wf_json d)]]
+       with Unsupported_case w -> L [A "unsupported"; A w])
+  | _ -> failwith "project: bad args"
+
+(* ---------- match -> pointer -> patch (C20) --------------------------------- *)
+(* (compose <doc> <loc> <new value>) *)
+let run_compose (args : sx list) : sx =
+  match args with
+  | [doc; L parts; nv] ->
+      let d = json_of_sx doc in
+      let l = List.map part_of_sx parts in
+      let x = json_of_sx nv in
+      let p = of_loc l in
+      (match node_at d l with
+       | None -> L [A "not-a-location"]
+       | Some v ->
+           L [A "ok";
+              L [sx_ustr (encode p);
+                 sx_result sx_json (apply [OpTest (p, v)] d);
+                 sx_result sx_json (apply [OpReplace (p, x)] d);
+                 sx_result sx_json (apply [OpRemove p] d);
+                 sx_result sx_json (apply [OpTest (p, x)] d)];
+              L [sx_ustr (spell_loc l);
+                 sx_json d;
+                 sx_option sx_json (replace_at d l x);
+                 sx_option sx_json (delete_at d l);
+                 sx_bool (json_eq v x)];
+              L [A "wf"; sx_bool (wf_json d)]])
+  | _ -> failwith "compose: bad args"
+
 (* ---------- dispatch ---------------------------------------------------- *)
 let dispatch (x : sx) : sx =
   match x with
@@ -540,6 +602,8 @@ let dispatch (x : sx) : sx =
   | L (A "patch" :: args) -> run_patch args
   | L (A "eval" :: args) -> run_eval args
   | L (A "compare" :: args) -> run_compare args
+  | L (A "project" :: args) -> run_project args
+  | L (A "compose" :: args) -> run_compose args
   | _ -> failwith "unknown case kind"
 
 let () =
